@@ -101,6 +101,33 @@ def _once(st, key, term):
     return False
 
 
+def extract_free(ex) -> bool:
+    """should sub-sequences be encoded WITHOUT seq.extract?  (per contract `extract_free=True/False`, else PYVC_EXTRACT_FREE)"""
+    import os
+
+    v = getattr(getattr(ex, "c", None), "extract_free", None)
+    if v is None:
+        return os.environ.get("PYVC_EXTRACT_FREE", "0") == "1"
+    return bool(v)
+
+
+def sub_seq(ex, st, s, start, length):
+    """s[start : start + length] for 0 <= start, 0 <= length, start + length <= len(s) (the caller clamps).
+    Default: seq.extract.  Extract-free form (z3 has answered `unsat` wrongly on files that combine seq.extract with
+    quantifiers): a FRESH sequence t with the two defining facts len(t) == length and t[i] == s[start + i] — a sound
+    weakening (only consequences of the real sub-sequence are asserted).  Under a quantifier the extract term is kept."""
+    if not extract_free(ex) or ex.qstack:
+        return z3.Extract(s, start, length)
+    start, length = z3.simplify(start) if z3.is_expr(start) else z3.IntVal(start), z3.simplify(length) if z3.is_expr(length) else z3.IntVal(length)
+    if z3.is_int_value(length) and length.as_long() <= 0:
+        return z3.Empty(s.sort())
+    t = z3.Const(fresh_name("sub"), s.sort())
+    i = z3.Int(fresh_name("bi"))
+    st.assume(z3.Length(t) == length)
+    st.assume(z3.ForAll([i], z3.Implies(z3.And(i >= 0, i < length), t[i] == s[start + i])))
+    return t
+
+
 def assume_theorem(st, f):
     """assume a fact that holds of every real value (well-formedness of dicts, theorems of sequences), and remember that
     it is one: when a spec function is unfolded such facts are asserted next to the defining equation instead of
@@ -849,7 +876,7 @@ def set_item(ex, st, recv: Val, idx: Val, v: Val, node) -> Val:
     if isinstance(t, T.List):
         s = lift(recv)
         j = ex.norm_index(lift(idx, T.INT), z3.Length(s), st, node)
-        new = z3.Concat(z3.Extract(s, 0, j), z3.Unit(lift(v, t.elem)), z3.Extract(s, j + 1, z3.Length(s) - j - 1))
+        new = z3.Concat(sub_seq(ex, st, s, 0, j), z3.Unit(lift(v, t.elem)), sub_seq(ex, st, s, j + 1, z3.Length(s) - j - 1))
         return Val(t, new)
     raise Unsupported(f"item store on {t}", node)
 
@@ -887,7 +914,7 @@ def del_item(ex, st, recv: Val, idx: Val, node) -> Val:
         s = lift(recv)
         n = z3.Length(s)
         j = ex.norm_index(lift(idx, T.INT), n, st, node)
-        return Val(t, z3.Concat(z3.Extract(s, 0, j), z3.Extract(s, j + 1, n - j - 1)))
+        return Val(t, z3.Concat(sub_seq(ex, st, s, 0, j), sub_seq(ex, st, s, j + 1, n - j - 1)))
     raise Unsupported(f"del item on {t}", node)
 
 
@@ -995,11 +1022,11 @@ def mutate(ex, st, recv: Val, name, args, kwargs, node):
                 k = i
             else:
                 k = z3.If(i < 0, z3.If(n + i < 0, 0, n + i), z3.If(i > n, n, i))
-            return Val(t, z3.Concat(z3.Extract(s, 0, k), z3.Unit(lift(args[1], t.elem)), z3.Extract(s, k, n - k))), none
+            return Val(t, z3.Concat(sub_seq(ex, st, s, 0, k), z3.Unit(lift(args[1], t.elem)), sub_seq(ex, st, s, k, n - k))), none
         if name == "pop" and not args:
             n = z3.Length(s)
             ex.safety(st, n > 0, "IndexError", node)
-            return Val(t, z3.Extract(s, 0, n - 1)), Val(t.elem, s[n - 1])
+            return Val(t, sub_seq(ex, st, s, 0, n - 1)), Val(t.elem, s[n - 1])
         if name == "clear":
             return Val(t, z3.Empty(t.sort())), none
         if name == "sort":
@@ -1011,7 +1038,7 @@ def mutate(ex, st, recv: Val, name, args, kwargs, node):
             x = lift(args[0], t.elem)
             ex.safety(st, z3.Contains(s, z3.Unit(x)), "ValueError", node)
             i = z3.IndexOf(s, z3.Unit(x), 0)
-            return Val(t, z3.Concat(z3.Extract(s, 0, i), z3.Extract(s, i + 1, z3.Length(s) - i - 1))), none
+            return Val(t, z3.Concat(sub_seq(ex, st, s, 0, i), sub_seq(ex, st, s, i + 1, z3.Length(s) - i - 1))), none
         raise Unsupported(f"list.{name}", node)
     if isinstance(t, T.Set):
         s = lift(recv)
@@ -1168,6 +1195,9 @@ def value_method(ex, st, recv: Val, name, args, kwargs, node) -> Val:
             key = name + ("_" + "_".join(repr(a.py) for a in args) if args else "")
             f = z3.Function("str_" + "".join(c if c.isalnum() else "_" for c in key), z3.StringSort(), z3.StringSort())
             return Val(T.STR, f(s))
+        if name in ("isalpha", "isdigit", "isalnum", "isspace", "isupper", "islower", "isnumeric", "isdecimal", "isidentifier", "istitle", "isascii") and not args and not kwargs:
+            # an uninterpreted predicate of the string (a function of s; nothing else is known about it)
+            return Val(T.BOOL, z3.Function("str_" + name, z3.StringSort(), z3.BoolSort())(s))
         if name == "ljust" and is_const(args[0]) and len(args) == 1:
             n = args[0].py
             r = s
